@@ -362,8 +362,10 @@ func (f *Frame) callContract(i *ssa.Call, g *ssa.Function, fc2 *FuncContract, ke
 			c.errorf("%s: ensures of %s at call: %v", en.Where, key, err)
 			continue
 		}
+		c.curTag = en.Label
 		c.assume(r, g2)
 		c.noteHyp(en.Expr, post, r)
+		c.curTag = ""
 	}
 	return pack(vals)
 }
